@@ -22,7 +22,7 @@ from ..gen import TYPES, lanes, Kernel
 from ..symex import F, mask
 from .c03 import tobv
 
-BOUNDS = ('region/symm obligations: every float32 / float64 argument of the stated region in the examined lane, arbitrary values in the other lanes, arithmetic abstracted '
+BOUNDS = ('quick tier: region / domain / symmetry obligations on one lane (lane 0 or the last lane, by VERIF_SEED), point obligations on both, 240 s per kernel body and 30 s per query (what does not fit is listed undecided); region/symm obligations: every float32 / float64 argument of the stated region in the examined lane, arbitrary values in the other lanes, arithmetic abstracted '
           '(sound over-approximation: unsat carries over to IEEE arithmetic); point obligations: the listed special operands, all lanes equal, exact IEEE evaluation; '
           'kernel variants: sse2, sse4_1, fma3<avx2>, avx512f (the generic math kernels are architecture-independent source; these are the distinct primitive sets). '
           'Outside: accuracy of any finite result (C10/C11), __ieee754_rem_pio2 (stubbed: deterministic function of its argument, NaN/inf -> NaN).')
@@ -31,10 +31,10 @@ ASSUMPTIONS = ['clang-14 -O1 lowering is correct', 'x86 intrinsic models', 'MXCS
                '__ieee754_rem_pio2 is kept out of line by the XSIMD_VERIF_HOOKS guard and modelled as a deterministic function with y = NaN, n = 0 for NaN/inf arguments',
                'NaN results are compared as NaN (payload/sign unspecified)', 'point obligations: NaN intermediates produced from concrete operands carry the x86 default QNaN bit pattern']
 EXTRA_FLAGS = ['-DXSIMD_VERIF_HOOKS']
-JOB_BUDGET = {'quick': 420, 'thorough': 3600}
+JOB_BUDGET = {'quick': 240, 'thorough': 3600}
 IGNORE_INTERNAL = ('unwind',)     # termination / loop bounds are C14's obligations; here paths are cut after max_unwind iterations (stated bound)
 MIN_COVERED = {'quick': 300, 'thorough': 500}
-TIMEOUT = {'quick': 40, 'thorough': 600}
+TIMEOUT = {'quick': 30, 'thorough': 600}
 QUICK_VARIANTS = ['sse2', 'avx512f']
 
 UNARY = K.MATH_UNARY
@@ -97,11 +97,18 @@ def variants(tier):
     return QUICK_VARIANTS if tier == 'quick' else K.MATH_ARCHS
 
 
-def lanes_checked(k, n):
-    """quick: lane 0 and the last lane (the kernels are lane-symmetric source; C13 covers lane independence); thorough: every lane"""
+def lanes_checked(k, n, cheap=False):
+    """quick: point obligations (folded concretely) on lane 0 and the last lane; region / domain / symmetry obligations (solver search) on
+    one of those two lanes, chosen by VERIF_SEED (the kernels are lane-symmetric source; C13 covers lane independence); thorough: every lane"""
     import os
     if os.environ.get('XV_TIER', _TIER[0]) == 'thorough': return list(range(n))
-    return sorted({0, n - 1})
+    if cheap: return sorted({0, n - 1})
+    return [0 if int(os.environ.get('VERIF_SEED') or 0) % 2 == 0 else n - 1]
+
+
+def job_priority(k):
+    if 'concrete' in k.meta: return 0
+    return {'lgamma': 9, 'tgamma': 9, 'sin': 7, 'cos': 7, 'tan': 7, 'sincos_s': 7, 'sincos_c': 7, 'id_sincos_sin': 8, 'id_sincos_cos': 8, 'pow': 6, 'erf': 5, 'erfc': 5}.get(k.op, 1)
 
 
 _TIER = ['quick']
@@ -205,7 +212,7 @@ def obligations(run):
     obs = []
     if 'concrete' in k.meta:
         exp = k.meta['expect']
-        for i in lanes_checked(k, n):
+        for i in lanes_checked(k, n, cheap=True):
             obs.append(Oblig('%s(%s)' % (op, k.meta['point']), True, (lambda i: lambda res: expect_pred(exp, bits_of(res[i]), w))(i), lane=i, kind='point'))
         return obs
     if op.startswith('id_'):
